@@ -19,27 +19,35 @@ If mustReturnInt is False and you don't want to allow the versions to be sorted,
         prim1, sec1, ter1 = self._splitVersion(v1)
         prim2, sec2, ter2 = self._splitVersion(v2)
 
-        if prim1 == prim2:
-            # the same primary release component
-            if sec1 or sec2 or ter1 or ter2:
-                if sec1 or sec2:
-                    if (sec1 and sec2):
-                        ret = self.stdCompare(sec1, sec2, True)
+        if prim1 != prim2:
+            ret = self._comparePrimaries(prim1, prim2, v1, v2, suffix, mustReturnInt)
+            if ret != 0:
+                return ret
+        #
+        # the same primary release component, possibly spelt differently (1.0 and 1_0, 1.01 and 1.1);
+        # the secondary and tertiary components decide
+        #
+        if sec1 or sec2 or ter1 or ter2:
+            if sec1 or sec2:
+                if (sec1 and sec2):
+                    ret = self.stdCompare(sec1, sec2, True)
+                else:
+                    if sec1:
+                        return -1
                     else:
-                        if sec1:
-                            return -1
-                        else:
-                            return 1
+                        return 1
 
-                    if ret == 0:
-                        return self.stdCompare(ter1, ter2, True)
-                    else:
-                        return ret
+                if ret == 0:
+                    return self.stdCompare(ter1, ter2, True)
+                else:
+                    return ret
 
-                return self.stdCompare(ter1, ter2, True)
-            else:
-                return 0
+            return self.stdCompare(ter1, ter2, True)
+        else:
+            return 0
 
+    def _comparePrimaries(self, prim1, prim2, v1, v2, suffix=True, mustReturnInt=True):
+        """Compare the primary components of v1 and v2; return 0 if all their parts compare equal"""
         c1 = re.split(r"[._]", prim1)
         c2 = re.split(r"[._]", prim2)
         #
